@@ -1517,8 +1517,14 @@ class CategorySubsetState(SubsetState):
         vals = data[self._att, view]
         if isinstance(vals, categorical_ndarray):
             vals = vals.codes
-        result = np.isin(vals.ravel(), self._categories)
-        return result.reshape(vals.shape)
+        elif np.ndim(vals) == 0:
+            # A view made only of integers picks a single element, which for
+            # a categorical attribute is the category itself, not its code
+            full = data[self._att]
+            if isinstance(full, categorical_ndarray):
+                vals = full.codes[view]
+        result = np.isin(np.ravel(vals), self._categories)
+        return result.reshape(np.shape(vals))
 
     def copy(self):
         return CategorySubsetState(self._att, self._categories.copy())
